@@ -17,10 +17,12 @@ and references — exact arithmetic, no sampling.
 "Closer than the unambiguous range" is the half-zone condition of `local_exact_*` (that is what
 unambiguous means); DESIGN §6.2 explains why the nominal 180 NM / 45 NM imply it for |lat| ≤ 87° (the
 harness exercises exactly that).  "Within 10 m" is exact recovery of `(Rlat, Rlon)`, which is within half
-a quantisation step of the true point per axis (`recovered_close_*`, in degrees; metres are checked
-numerically by the harness oracle).
+a quantisation step of the true point per axis (`recovered_close_*`, in degrees); the metres are theorems
+too (last section: `recovered_axes_metres`, `local_within_10m_airborne/_surface`, on the sphere of radius
+6 399 594 m).
 -/
 import Rs1090.Proofs.CprLocalSpec
+import Rs1090.Proofs.CprMetres
 namespace Rs1090.Props.C05
 open Rs1090 Rs1090.Model.Cpr Rs1090.Spec.Cpr Rs1090.Proofs.Cpr
 
@@ -127,6 +129,103 @@ theorem ni_pos (m : Msg) (latRef lonRef lat : ℚ) (s : Site) :
     airborneWithRef m latRef lonRef ≠ .panic s ∧ surfaceWithRef m latRef lonRef ≠ .panic s :=
   ⟨nl_pos lat, le_max_right _ _, dLonOf_pos 360 (by norm_num) m lat, dLonOf_pos 90 (by norm_num) m lat,
     withRef_ne_panic 360 m latRef lonRef s, withRef_ne_panic 90 m latRef lonRef s⟩
+
+/-! ### "within 10 m": from degrees to metres
+
+Same metric as in `Props/C04.lean` (sphere of radius `R_MAX = 6 399 594 m`, the largest radius of curvature
+of WGS-84; `Geo.gcDist` = great-circle distance, `Geo.chordDist` = chord; `mPerDeg`, `cosUB`, `ewMax`,
+`chordMax` as there).  Airborne: the decoded point is within 9.629 m (6.251 m where NL ≥ 3); surface (half a
+step = 1/2^20 of the airborne zone): a quarter of that, ≤ 2.408 m.  Not a theorem: sphere vs ellipsoid, and
+the link "reference within 180 NM / 45 NM ⇒ inside the half-zone box" (see `notes/C05.md`: in that wording
+it is not even true on the ellipsoid at the full range, e.g. 180 NM due north at the equator is 3.015° of
+latitude > Dlat₀/2 = 3°). -/
+
+open Rs1090.Proofs.Metres in
+/-- **The two axes in metres, airborne and surface** (rational statement): `q = 1` airborne (17 bits),
+    `q = 4` surface (19 bits): north-south `≤ 2.6/q m`, east-west `≤ ewMax/q` (5.68 m; 9.27 m where NL ≤ 2),
+    `NS² + EW² ≤ (chordMax/q)²`. -/
+theorem recovered_axes_metres (i : Nat) (hi : i ≤ 1) (lat lon : ℚ) :
+    (nsM (rlat 17 i lat - lat) ≤ 26 / 10 ∧
+      ewM (NL (rlat 17 i lat)) (rlon 17 i (rlat 17 i lat) lon - lon) ≤ ewMax (NL (rlat 17 i lat)) ∧
+      nsM (rlat 17 i lat - lat) ^ 2 + ewM (NL (rlat 17 i lat)) (rlon 17 i (rlat 17 i lat) lon - lon) ^ 2
+        ≤ chordMax (NL (rlat 17 i lat)) ^ 2) ∧
+    (nsM (rlat 19 i lat - lat) ≤ 26 / 10 / 4 ∧
+      ewM (NL (rlat 19 i lat)) (rlon 19 i (rlat 19 i lat) lon - lon) ≤ ewMax (NL (rlat 19 i lat)) / 4 ∧
+      nsM (rlat 19 i lat - lat) ^ 2 + ewM (NL (rlat 19 i lat)) (rlon 19 i (rlat 19 i lat) lon - lon) ^ 2
+        ≤ (chordMax (NL (rlat 19 i lat)) / 4) ^ 2) := by
+  constructor
+  · obtain ⟨hA, hB⟩ := recovered_close_airborne i hi lat lon
+    obtain ⟨h1, h59⟩ := NL_range (rlat 17 i lat)
+    rw [dlon_eq_dlonOf] at hB
+    obtain ⟨a, b, c⟩ := axes_le _ i h1 h59 262144 _ _ hA hB
+    exact ⟨le_trans a (ns_air i hi), le_trans b (ew_air _ h1 h59 i hi),
+      le_trans c (budget_air _ h1 h59 i hi)⟩
+  · obtain ⟨hA, hB⟩ := recovered_close_surface i hi lat lon
+    obtain ⟨h1, h59⟩ := NL_range (rlat 19 i lat)
+    rw [dlon_eq_dlonOf] at hB
+    obtain ⟨a, b, c⟩ := axes_le _ i h1 h59 1048576 _ _ hA hB
+    have n4 : mPerDeg * (dlat i / 1048576) = mPerDeg * (dlat i / 262144) / 4 := by ring
+    have e4 : mPerDeg * cosUB (NL (rlat 19 i lat)) * (dlonOf (NL (rlat 19 i lat)) i / 1048576)
+        = mPerDeg * cosUB (NL (rlat 19 i lat)) * (dlonOf (NL (rlat 19 i lat)) i / 262144) / 4 := by ring
+    have hn := ns_air i hi
+    have he := ew_air _ h1 h59 i hi
+    have hb := budget_air _ h1 h59 i hi
+    rw [n4] at a; rw [e4] at b; rw [budget_surf] at c
+    refine ⟨by linarith, by linarith, le_trans c ?_⟩
+    have : (chordMax (NL (rlat 19 i lat)) / 4) ^ 2 = chordMax (NL (rlat 19 i lat)) ^ 2 / 16 := by ring
+    rw [this]
+    exact div_le_div_of_nonneg_right hb (by norm_num)
+
+open Rs1090.Proofs.Metres Rs1090.Proofs.Geo in
+/-- **Airborne reference decoding returns a position within 10 m of the point**: under the hypotheses of
+    `local_exact_airborne` the decoder returns a position whose great-circle distance from the true point, on
+    the sphere of radius `R_MAX`, is at most 9.629 m (6.251 m where NL ≥ 3, |Rlat| < 86.535°). -/
+theorem local_within_10m_airborne (i : Nat) (hi : i ≤ 1) (lat lon latRef lonRef : ℚ) (k : ℤ)
+    (hlat : -90 ≤ lat ∧ lat ≤ 90)
+    (h1 : |rlat 17 i lat - latRef| < dlat i / 2)
+    (h2 : |rlon 17 i (rlat 17 i lat) lon + 360 * k - lonRef| < dlon i (rlat 17 i lat) / 2) :
+    ∃ p : Pos, airborneWithRef (report 17 i lat lon) latRef lonRef = .ok (some p) ∧
+      gcDist 6399594 (rad lat) (rad lon) (rad p.lat) (rad p.lon) ≤ 9629 / 1000 ∧
+      (3 ≤ NL (rlat 17 i lat) →
+        gcDist 6399594 (rad lat) (rad lon) (rad p.lat) (rad p.lon) ≤ 6251 / 1000) ∧
+      (9629 / 1000 : ℝ) < 10 := by
+  refine ⟨_, local_exact_airborne i hi lat lon latRef lonRef k hlat h1 h2, ?_⟩
+  have hB : |rlon 17 i (rlat 17 i lat) lon + 360 * k - (lon + 360 * k)|
+      ≤ dlon i (rlat 17 i lat) / 262144 := by
+    have e : rlon 17 i (rlat 17 i lat) lon + 360 * (k : ℚ) - (lon + 360 * k)
+        = rlon 17 i (rlat 17 i lat) lon - lon := by ring
+    rw [e]; exact (recovered_close_airborne i hi lat lon).2
+  obtain ⟨_, hg⟩ := air_dist i hi lat lon hlat _ k hB
+  have hm : ((chordMax (NL (rlat 17 i lat)) : ℚ) : ℝ) ≤ 9628 / 1000 := by
+    calc ((chordMax (NL (rlat 17 i lat)) : ℚ) : ℝ) ≤ ((9628 / 1000 : ℚ) : ℝ) :=
+          Rat.cast_le.mpr (chordMax_le _)
+      _ = 9628 / 1000 := by norm_num
+  refine ⟨by linarith, fun h3 => ?_, by norm_num⟩
+  have : chordMax (NL (rlat 17 i lat)) = 625 / 100 := by unfold chordMax; rw [if_pos h3]
+  rw [this] at hg
+  exact le_trans hg (by norm_num)
+
+open Rs1090.Proofs.Metres Rs1090.Proofs.Geo in
+/-- **Surface reference decoding**: same with the 19-bit encoder; the distance is at most 2.408 m. -/
+theorem local_within_10m_surface (i : Nat) (hi : i ≤ 1) (lat lon latRef lonRef : ℚ) (k : ℤ)
+    (hlat : -90 ≤ lat ∧ lat ≤ 90)
+    (h1 : |rlat 19 i lat - latRef| < dlat i / 4 / 2)
+    (h2 : |rlon 19 i (rlat 19 i lat) lon + 360 * k - lonRef| < dlon i (rlat 19 i lat) / 4 / 2) :
+    ∃ p : Pos, surfaceWithRef (report 19 i lat lon) latRef lonRef = .ok (some p) ∧
+      gcDist 6399594 (rad lat) (rad lon) (rad p.lat) (rad p.lon) ≤ 2408 / 1000 := by
+  refine ⟨_, local_exact_surface i hi lat lon latRef lonRef k hlat h1 h2, ?_⟩
+  have hB : |rlon 19 i (rlat 19 i lat) lon + 360 * k - (lon + 360 * k)|
+      ≤ dlon i (rlat 19 i lat) / 1048576 := by
+    have e : rlon 19 i (rlat 19 i lat) lon + 360 * (k : ℚ) - (lon + 360 * k)
+        = rlon 19 i (rlat 19 i lat) lon - lon := by ring
+    rw [e]; exact (recovered_close_surface i hi lat lon).2
+  obtain ⟨_, hg⟩ := surf_dist i hi lat lon hlat _ k hB
+  have hm : ((chordMax (NL (rlat 19 i lat)) / 4 : ℚ) : ℝ) ≤ 2407 / 1000 := by
+    have := chordMax_le (NL (rlat 19 i lat))
+    calc ((chordMax (NL (rlat 19 i lat)) / 4 : ℚ) : ℝ) ≤ ((2407 / 1000 : ℚ) : ℝ) :=
+          Rat.cast_le.mpr (by linarith)
+      _ = 2407 / 1000 := by norm_num
+  linarith
 
 /-! ### non-vacuity: the repository's own tests -/
 
